@@ -57,6 +57,7 @@ type Event struct {
 	Fd       int    `json:"fd,omitempty"`
 	Count    int    `json:"count,omitempty"`
 	Flags    int    `json:"flags,omitempty"`
+	Mode     int    `json:"mode,omitempty"` // the mode argument of a creating call (before the umask is applied)
 	Ret      int64  `json:"ret"`
 	Returned bool   `json:"returned"`
 	Injected string `json:"injected,omitempty"`
@@ -316,11 +317,18 @@ func onEntry(tid int, th *thread, regs *syscall.PtraceRegs, res *Result, fds map
 	case "openat", "openat2":
 		ev.Path = peekString(tid, uintptr(regs.Rsi))
 		ev.Flags = int(regs.Rdx)
+		if name == "openat" {
+			ev.Mode = int(regs.R10)
+		}
 		th.openPath = ev.Path
 		relevant = under(ev.Path)
 	case "open", "creat":
 		ev.Path = peekString(tid, uintptr(regs.Rdi))
 		ev.Flags = int(regs.Rsi)
+		ev.Mode = int(regs.Rdx)
+		if name == "creat" {
+			ev.Flags, ev.Mode = syscall.O_CREAT|syscall.O_WRONLY|syscall.O_TRUNC, int(regs.Rsi)
+		}
 		th.openPath = ev.Path
 		relevant = under(ev.Path)
 	case "stat", "lstat":
